@@ -48,6 +48,8 @@ THEOREMS = [
     "Opacus.C07.eps_triple_ordered",
     "Opacus.C07.find_epsilon_inverts_hockey_stick",
     "Opacus.C07.safe_domain_covers",
+    # the tie to the source: Generated/PrvDomain.lean is re-translated from accountants/prv.py and analysis/prv/domain.py on every run
+    "Opacus.C07.generated_prv_domain_eq_model",
 ]
 RULE = (
     "exact cases: (even size N, integer pmf(s), dyadic domain(s), composition counts) drawn from VERIF_SEED, non-trivial iff the pmf is "
@@ -56,6 +58,7 @@ RULE = (
     "distinct by the rounded parameters; search cases: history + (delta, eps_error) with an independent truth bracket, distinct by parameters"
 )
 TRUSTED = [
+    "the translator vharness/props/c07_trans.py (Python `ast` -> real arithmetic for mesh_size, the two delta arguments compute_safe_domain_size hands to the RDP accountant and its returned max(L_max, eps_error) + 3; anything else is reported as a broken tie) is trusted to render those expressions faithfully; the discrete algebra (discretisation, FFT composition, delta estimate) is tied by the behavioural correspondence",
     "SciPy rfft/irfft compute the DFT (the model specifies irfft(rfft(p)**n) as n-fold circular convolution; compared numerically on every run)",
     "SciPy erfc / quad: the closed-form cdf of the subsampled-Gaussian privacy loss and the truncated mean are handed to the model as columns",
     "compute_safe_domain_size is modelled as max(eps_RDP(whole history), eps_RDP(each single step), eps_error) + 3 with the RDP accountant's epsilons as inputs (their value is C06's subject)",
@@ -727,8 +730,16 @@ def run_search(ctx):
             ctx.property_failure(res[0], res[1], dict(res[2], failing_input=case))
 
 
+def regenerate(ctx):
+    from .. import regen
+    from . import c07_trans as T
+    regen.regenerate(ctx, T, "Opacus.Generated.PrvDomain", "PRV domain formulas (accountants/prv.py, analysis/prv/domain.py)")
+
+
 def run(ctx):
     import time
+
+    regenerate(ctx)
 
     for f in (run_exact, run_small, run_ties, run_float, run_search):
         t = time.time()
